@@ -632,6 +632,9 @@ pub struct PipeCase {
     pub split_permille: Option<u32>,
     /// length of every value
     pub value_len: u32,
+    /// the values hold two-byte characters and the cut falls between the two bytes of one of them
+    #[serde(default)]
+    pub cut_inside_char: bool,
 }
 
 pub fn run_pipe_case(srv: &TServer, case: &PipeCase) -> Outcome {
@@ -641,7 +644,7 @@ pub fn run_pipe_case(srv: &TServer, case: &PipeCase) -> Outcome {
     let tag = COUNTER.fetch_add(1, Ordering::SeqCst);
     let mut out = Outcome::ok(case.n > 100 || case.split_permille.is_some());
     out.classes.push(if case.split_permille.is_some() { "tcp-line-in-two-segments" } else { "tcp-pipelined-lines" });
-    let val = |i: u32| format!("v{}x{}", i, "y".repeat(case.value_len as usize));
+    let val = |i: u32| if case.cut_inside_char { format!("v{}x{}", i, "é".repeat(case.value_len as usize)) } else { format!("v{}x{}", i, "y".repeat(case.value_len as usize)) };
     let mut payload = String::from("use-db probe ptok\n");
     for i in 0..case.n {
         payload.push_str(&format!("set p{}k{} {}\n", tag, i, val(i)));
@@ -653,7 +656,14 @@ pub fn run_pipe_case(srv: &TServer, case: &PipeCase) -> Outcome {
         s.set_read_timeout(Some(std::time::Duration::from_millis(100))).ok();
         match case.split_permille {
             Some(pm) => {
-                let cut = ((bytes.len() as u64 * pm as u64) / 1000).clamp(1, bytes.len() as u64 - 1) as usize;
+                let mut cut = ((bytes.len() as u64 * pm as u64) / 1000).clamp(1, bytes.len() as u64 - 1) as usize;
+                if case.cut_inside_char {
+                    // move the cut to the nearest place between the two bytes of an é (0xC3 | 0xA9)
+                    let pos = (0..bytes.len() - 1).filter(|i| bytes[*i] == 0xC3 && bytes[*i + 1] == 0xA9).min_by_key(|i| (*i as i64 + 1 - cut as i64).abs());
+                    if let Some(i) = pos {
+                        cut = i + 1;
+                    }
+                }
                 s.write_all(&bytes[..cut]).map_err(|e| format!("write: {}", e))?;
                 s.flush().ok();
                 crate::transport::real_sleep(std::time::Duration::from_millis(300));
@@ -706,7 +716,7 @@ pub fn run_pipe_case(srv: &TServer, case: &PipeCase) -> Outcome {
             // greeting + use-db + n sets + get + sentinel
             let want_oks = case.n as usize + 4;
             let stored = srv.node.dump_db("probe").map(|m| (0..case.n).filter(|i| m.get(&format!("p{}k{}", tag, i)).map(|v| v.0 == val(*i)).unwrap_or(false)).count()).unwrap_or(0);
-            let how = if case.split_permille.is_some() { "one-line-in-two-segments" } else { "lines-in-one-segment" };
+            let how = if case.cut_inside_char { "cut-inside-a-multi-byte-character" } else if case.split_permille.is_some() { "one-line-in-two-segments" } else { "lines-in-one-segment" };
             if !errors.is_empty() || stored != case.n as usize {
                 out.fail = Some((format!("C10|transport|tcp|command-not-executed-as-sent|{}", how), format!("{} set lines + 1 get over TCP ({}): {} of the keys hold their value afterwards; error answers {:?}", case.n, how, stored, errors.iter().take(3).collect::<Vec<_>>())));
             } else if oks < want_oks || !has_value {
@@ -720,11 +730,16 @@ pub fn run_pipe_case(srv: &TServer, case: &PipeCase) -> Outcome {
 fn pipe_family() -> Vec<PipeCase> {
     let mut v = vec![];
     for n in [1u32, 20, 99, 101, 150, 400] {
-        v.push(PipeCase { n, split_permille: None, value_len: 3 });
+        v.push(PipeCase { n, split_permille: None, value_len: 3, cut_inside_char: false });
     }
     for (n, len) in [(1u32, 3u32), (3, 3), (1, 3000), (2, 70_000)] {
         for pm in [300u32, 500, 900, 990] {
-            v.push(PipeCase { n, split_permille: Some(pm), value_len: len });
+            v.push(PipeCase { n, split_permille: Some(pm), value_len: len, cut_inside_char: false });
+        }
+    }
+    for (n, len) in [(1u32, 3u32), (2, 40), (1, 3000)] {
+        for pm in [400u32, 700, 950] {
+            v.push(PipeCase { n, split_permille: Some(pm), value_len: len, cut_inside_char: true });
         }
     }
     v
